@@ -25,7 +25,7 @@ from _griffe.loader import GriffeLoader
 from _griffe.mixins import ObjectAliasMixin
 from _griffe.models import Alias
 from harness.C01_extract import _assign, _at, _classdef, _const, _funcdef, _name, _pass
-from vlib.ob import TIER, HarnessDefect, cover, fail, obligation, tiered
+from vlib.ob import TIER, HarnessDefect, cover, fail, obligation, tiered, prop
 from vlib.stubs import plain_error_messages, silence_logging
 
 STUBS = silence_logging() + plain_error_messages()
@@ -295,7 +295,7 @@ def _nf(s):
     and _nm(n3) and n3 != "__d__" and _nm(e1)
     and 1 <= l_star <= 30 and 1 <= l_def <= 30 and 1 <= l_exp <= 30 and l_star != l_def and l_star != l_exp and l_def != l_exp and abs(l_star - l_def) > 1 and abs(l_exp - l_def) > 1,
     drives=[GriffeLoader.expand_exports, GriffeLoader.expand_wildcards, GriffeLoader._expand_wildcard, GriffeLoader.resolve_aliases, GriffeLoader.resolve_module_aliases, Alias.resolve_target,
-            ObjectAliasMixin.is_wildcard_exposed.fget, Visitor.visit_importfrom, Visitor.handle_attribute],
+            prop(ObjectAliasMixin, "is_wildcard_exposed"), Visitor.visit_importfrom, Visitor.handle_attribute],
     bounds={"package": "pkg/__init__.py + pkg/s.py (+ pkg/t.py star-imported by s, thorough)", "s": "def n1, class n2 (with a method), optional __all__ = [e1] or t.__all__ + [e1] (t then declares __all__ = [n4])",
             "pkg": "from .s import * at l_star; a local def/assignment n3 at l_def; optional `from .s import n1 [as k]` at l_exp; optional __all__ = [n3] or s.__all__ + [n3]",
             "names": "function n1 in {a,_,__d__}, class n2 = b, local n3 in {a,b,_}, __all__ entry e1 in {a,b,_,__d__}, alias name k in {a,_} (underscore = private, __d__ = dunder)", "line numbers": "1..30, pairwise distinct: every relative order of the statements"},
